@@ -419,6 +419,24 @@ def run(res, tier, seed):
                           f"({dump(cfg, it)}, {lst(lst(f'({it.s(k)}, {z(v)})' for k, v in d.items()) for d in dicts)}, {llz(objs)})",
                           {"cfg": strip(ast), "prios": dicts, "objectives": objs}))
         res.sample({"configurator": repr(cfg), "columns": cols, "default_prio_vector": dpv, "prios": dicts[0], "objective": objs[0]})
+    # defaulted choices nested inside defaulted choices, built by the constructors and loaded from their JSON document
+    jrng = random.Random(seed * 7963 + 14)
+    for _ in range(24 if quick else 240):
+        its = jrng.sample(list("abcdefgh"), jrng.randint(4, 6))
+        inner = {"k": jrng.choice(["CcAny", "CcXor"]), "ch": [{"k": "str", "id": i} for i in its[:jrng.randint(2, 3)]], "default": [its[0]], "id": "In"}
+        rest = [{"k": "str", "id": i} for i in its[3:]]
+        outer = {"k": jrng.choice(["CcAny", "CcAny", "CcXor"]), "ch": rest + [inner], "default": [rest[0]["id"]], "id": "Out"}
+        rules = [outer] + ([{"k": "Imply", "ch": [{"k": "str", "id": its[-1]}, {"k": "CcAny", "ch": [{"k": "str", "id": "y1"}, {"k": "str", "id": "y2"}], "default": ["y1"], "id": "Cons"}], "id": "I"}] if jrng.random() < 0.4 else [])
+        ast = {"k": "Stingy", "ch": rules, "id": "cfg"}
+        try:
+            if build(json.loads(json.dumps(ast))).errors():
+                continue
+            bad = json_loaded_case(ast)
+        except Exception as e:
+            bad = f"raised {type(e).__name__}: {str(e)[:200]}"
+        res.count("json_loaded_nested_defaults"); res.evaluations += 1
+        if bad:
+            res.violation("oracle", f"{bad}; configurator {json.dumps(ast)[:400]}", {"op": "json-loaded", "cfg": ast})
     # _vectors_from_prios alone on synthetic default/user vectors (wider than configurators produce)
     for _ in range(60 if quick else 1200):
         n = rng.randint(1, 9)
@@ -491,8 +509,23 @@ def escalate(res, ast_j, rng):
         return True
     return not oracle_pairs(res, ast, cfg, cols, dicts, objs, poly, nd, rng, 600)
 
+def json_loaded_case(ast):
+    """the configurator built by the constructors and the same one loaded from its JSON document: same default priorities,
+    columns and default priority vector (explicit ids only, no negation: nothing the round trip is known to rename)"""
+    c1 = build(json.loads(json.dumps(ast)))
+    c2 = cc.StingyConfigurator.from_json(json.loads(json.dumps(c1.to_json())))
+    o1, o2 = observe(c1, [{}])[:3], observe(c2, [{}])[:3]
+    for name, a, b_ in zip(("default_prios", "columns", "default_prio_vector"), o1, o2):
+        if a != b_:
+            return f"{name} of the configurator loaded from JSON is {b_}, of the constructed one {a}"
+    return None
+
 def replay(payload):
     r = payload.get("replay", payload)
+    if r.get("op") == "json-loaded":
+        bad = json_loaded_case(r["cfg"])
+        print("configurator", json.dumps(r["cfg"])[:400], "->", "FAILS: " + bad if bad else "holds")
+        return 1 if bad else 0
     for e in r.get("earlier_configurators_in_this_process", []):
         try:
             c0 = build_tracked(json.loads(json.dumps(e))); c0.ge_polyhedron; list(c0.select({}, solver=Recorder()))
